@@ -738,6 +738,92 @@ theorem addBlocks_spec {U} (hU : WFU U) {m : Mgr} (h : Inv U m) (batch : List Na
       · right
         exact ⟨Or.inr (Or.inr (Or.inr ke)), by rw [kb, j2], by rw [kn, j3]⟩
 
+/-! ### `AddValidatedV2Blocks` -/
+
+/-- consecutive blocks of a batch are parent-linked, starting above `p` -/
+def LinkedFrom (U : Nat → Blk) : Nat → List Nat → Prop
+  | _, [] => True
+  | p, b :: bs => par U b = p ∧ LinkedFrom U b bs
+
+/-- what the syncer guarantees about a batch it hands to `AddValidatedV2Blocks` (C11's gate): a
+parent-linked run of v2 blocks that passed `ValidateOrphan`/`ValidateBlock` on top of a block this
+manager has applied -/
+structure PreValidated (U : Nat → Blk) (m : Mgr) (batch : List Nat) : Prop where
+  ok : ∀ b ∈ batch, (U b).hdrOk = true ∧ (U b).bodyOk = true ∧ (U b).future = false ∧ (U b).v2 = true
+  linked : ∀ b0 rest, batch = b0 :: rest → LinkedFrom U (par U b0) batch ∧ m.recs (par U b0) = some ⟨true, true⟩
+
+/-- storing a pre-validated block on top of an applied parent keeps the invariant -/
+theorem store_validated_inv {U m} (hU : WFU U) (h : Inv U m) {b : Nat}
+    (hpar : m.recs (par U b) = some ⟨true, true⟩)
+    (hok : (U b).hdrOk = true) (hbody : (U b).bodyOk = true) (hfut : (U b).future = false) :
+    Inv U { m with states := upd m.states b true, recs := upd m.recs b (some ⟨true, true⟩) } := by
+  obtain ⟨hb0, hbh⟩ := hU.hdr b hok
+  have hps : m.states (par U b) = true := (h.s.recstate _ _ hpar).2
+  refine ⟨⟨h.s.h0, ?_, ?_, ?_, ?_, ?_, ?_, ?_⟩, h.chain, ?_⟩
+  · have := h.s.gen; simp [upd, hb0.symm, this]
+  · intro j hj hj0
+    by_cases e : j = b
+    · subst e
+      refine ⟨?_, hbh⟩
+      by_cases e2 : par U j = j <;> simp [upd, e2, hps]
+    · have hj' : m.states j = true := by simpa [upd, e] using hj
+      obtain ⟨c1, c2⟩ := h.s.closed j hj' hj0
+      refine ⟨?_, c2⟩
+      by_cases e2 : par U j = b <;> simp [upd, e2, c1]
+  · intro j r hj
+    by_cases e : j = b
+    · subst e; simp [upd] at hj; subst hj; simp [upd]
+    · simp [upd, e] at hj ⊢; exact h.s.recstate j r hj
+  · intro j hj
+    by_cases e : j = b
+    · subst e; simp [upd]
+    · simp [upd, e] at hj ⊢; exact h.s.staterec j hj
+  · intro j hj0 hj
+    by_cases e : j = b
+    · subst e; exact hbody
+    · simp [upd, e] at hj; exact h.s.valid j hj0 hj
+  · intro j hj0 hj
+    by_cases e : j = b
+    · subst e; exact ⟨hok, hfut⟩
+    · simp [upd, e] at hj; exact h.s.validHdr j hj0 hj
+  · intro j hj0 hj
+    by_cases e : j = b
+    · subst e
+      by_cases e2 : par U j = j <;> simp [upd, e2, hpar]
+    · have hj' : m.recs j = some ⟨true, true⟩ := by simpa [upd, e] using hj
+      have := h.s.suppclosed j hj0 hj'
+      by_cases e2 : par U j = b <;> simp [upd, e2, this]
+  · intro i hi
+    have := h.bestsupp i hi
+    by_cases e : i = b <;> simp [upd, e, this]
+
+/-- the storing loop of `AddValidatedV2Blocks` on a pre-validated, linked batch -/
+theorem addV2Loop_spec {U} (hU : WFU U) : ∀ (batch : List Nat) (m : Mgr) (p : Nat), Inv U m →
+    m.recs p = some ⟨true, true⟩ → LinkedFrom U p batch →
+    (∀ b ∈ batch, (U b).hdrOk = true ∧ (U b).bodyOk = true ∧ (U b).future = false ∧ (U b).v2 = true) →
+    Inv U (addValidatedV2.go U batch m).1 ∧ (addValidatedV2.go U batch m).2 = none ∧
+    (addValidatedV2.go U batch m).1.best = m.best ∧
+    (addValidatedV2.go U batch m).1.notified = m.notified ∧
+    ((∀ i, m.states i = true → (addValidatedV2.go U batch m).1.states i = true) ∧
+     (∀ i, m.recs i = some ⟨true, true⟩ → (addValidatedV2.go U batch m).1.recs i = some ⟨true, true⟩)) ∧
+    (addValidatedV2.go U batch m).1.recs (batch.getLastD p) = some ⟨true, true⟩ := by
+  intro batch
+  induction batch with
+  | nil => intro m p h hp _ _; simp [addValidatedV2.go, h, hp]
+  | cons b bs ih =>
+    intro m p h hp ⟨hl1, hl2⟩ hall
+    obtain ⟨o1, o2, o3, o4⟩ := hall b (by simp)
+    have hinv' := store_validated_inv hU h (hl1 ▸ hp) o1 o2 o3
+    obtain ⟨j1, j2, j3, j4, j5, j6⟩ := ih _ b hinv' (by simp [upd]) hl2 (fun x hx => hall x (List.mem_cons_of_mem _ hx))
+    rw [addValidatedV2.go]
+    simp only [o4, Bool.not_true, Bool.false_eq_true, if_false]
+    refine ⟨j1, j2, j3, j4, ⟨?_, ?_⟩, ?_⟩
+    · intro i hi; apply j5.1; by_cases e : i = b <;> simp [upd, e, hi]
+    · intro i hi; apply j5.2; by_cases e : i = b <;> simp [upd, e, hi]
+    · cases bs with
+      | nil => simpa [List.getLastD] using j6
+      | cons c cs => simpa [List.getLastD] using j6
+
 /-! ### pruning -/
 
 theorem bestAt_recs (m : Mgr) (r : Nat → Option Rec) (k : Nat) :
